@@ -909,13 +909,41 @@ func checkC13(c *Check) {
 			if !ok {
 				continue
 			}
-			for _, call := range callsIn(lit.Body) {
-				if !isCall(pi, call, futPkg+".Future.Set") {
-					continue
-				}
+			// completions anywhere in the goroutine, deferred functions included
+			var setCalls []*ast.CallExpr
+			deferred := map[*ast.CallExpr]bool{}
+			var walk func(n ast.Node, inDefer bool)
+			walk = func(n ast.Node, inDefer bool) {
+				ast.Inspect(n, func(y ast.Node) bool {
+					switch z := y.(type) {
+					case *ast.DeferStmt:
+						if dl, isLit := z.Call.Fun.(*ast.FuncLit); isLit {
+							walk(dl.Body, true)
+							return false
+						}
+						if isCall(pi, z.Call, futPkg+".Future.Set") {
+							setCalls = append(setCalls, z.Call)
+							deferred[z.Call] = true
+							return false
+						}
+					case *ast.CallExpr:
+						if isCall(pi, z, futPkg+".Future.Set") {
+							setCalls = append(setCalls, z)
+							deferred[z] = inDefer
+						}
+					}
+					return true
+				})
+			}
+			walk(lit.Body, false)
+			for _, call := range setCalls {
 				nset++
 				key := "PrepareConn:set" + itoa(nset)
 				recv := callRecv(call)
+				if deferred[call] {
+					c.Hold("R6", key, call.Pos(), false, "the lookup goroutine completes the future in a deferred function, i.e. also when the lookup panicked (the recover next to it exists for that): the future then carries 'no records, no error', which CheckConn reads as 'the MX publishes no TLSA records' – DANE fails open instead of deferring")
+					continue
+				}
 				v, isVar := objOf(pi, recv).(*types.Var)
 				if _, isIdent := ast.Unparen(recv).(*ast.Ident); !isIdent || !isVar || v.IsField() || !localIn(pc.FI.Decl.Body, v) || localIn(lit, v) {
 					c.Hold("R6", key, call.Pos(), false, "the lookup goroutine completes `"+exprStr(recv)+"`, read when the lookup is done: if the connection attempt fails first, the next PrepareConn has replaced it and this MX's records decide the next MX's connection (and that MX's own result is dropped)")
